@@ -33,6 +33,12 @@ use redis_sim::redis::{Command, CommandExecutor, RespCodec, RespValue, Value};
 use serde_json::json;
 use tokio::io::{AsyncReadExt, AsyncWriteExt, DuplexStream};
 
+/// Which variant of the connection handler /repo currently has — the ONE place to edit when the
+/// proposed fix "a protocol error between MULTI and EXEC flags the transaction" (branch
+/// fixes-txn-s3) lands: the model then follows `Txn.stepFixed`, the oracle expects EXECABORT, and
+/// the known finding C05:execabort:missing:protocol-error-not-flagged moves to `fixed`.
+pub const CODE_PROTO_ERROR_FLAGS: bool = false;
+
 pub(crate) const KEYS: [&str; 6] = ["k", "n", "l", "w", "ab", "x"];
 /// never written: target of the no-op fillers that keep the second connection in lock step
 const FILLER_KEY: &str = "zz";
@@ -981,7 +987,11 @@ impl World {
                 let body = std::mem::take(&mut self.body);
                 let watched = std::mem::take(&mut self.watched);
                 let queued: Vec<&Inp> = body.iter().filter(|(_, r)| *r == Rv::Simple("QUEUED".into())).map(|(i, _)| i).collect();
-                let refused = body.iter().any(|(_, r)| r.is_err() && !matches!(err_class(match r { Rv::Err(t) => t, _ => "" }, false).as_str(), "-nested-multi" | "-watch-in-multi" | "-protocol"));
+                let cls = |r: &Rv| err_class(match r { Rv::Err(t) => t, _ => "" }, false);
+                let refused = body.iter().any(|(_, r)| r.is_err() && !matches!(cls(r).as_str(), "-nested-multi" | "-watch-in-multi"));
+                // the only refused inputs were protocol errors (which the current handler does not flag)
+                let refused_proto_only = refused && body.iter().all(|(_, r)| !r.is_err() || matches!(cls(r).as_str(), "-nested-multi" | "-watch-in-multi" | "-protocol"));
+                let missing_sig = if refused_proto_only && !CODE_PROTO_ERROR_FLAGS { "C05:execabort:missing:protocol-error-not-flagged" } else { "C05:execabort:missing" };
                 let any_err = body.iter().any(|(_, r)| r.is_err());
                 let after = dump_keys(&self.st, &self.keys).await;
                 let before = before.unwrap();
@@ -999,7 +1009,7 @@ impl World {
                     Rv::Arr(None) => {
                         out.count("exec:nil");
                         if refused {
-                            out.violation("C05:execabort:missing", "an input was refused at queue time but EXEC did not answer EXECABORT", self.replay_json());
+                            out.violation(missing_sig, "an input was refused at queue time but EXEC did not answer EXECABORT", self.replay_json());
                         }
                         if changed.is_empty() {
                             out.violation("C05:watch:spurious-abort", "EXEC answered nil although no watched key changed its value since WATCH", self.replay_json());
@@ -1012,7 +1022,7 @@ impl World {
                         out.count("exec:results");
                         out.count(&format!("exec:queue-len:{}", queued.len().min(6)));
                         if refused {
-                            out.violation("C05:execabort:missing", "an input was refused at queue time but EXEC executed the queue", self.replay_json());
+                            out.violation(missing_sig, "an input was refused at queue time (answered with an error) but EXEC executed the queue instead of answering EXECABORT", self.replay_json());
                         }
                         if let Some((k, t0, now, _)) = changed.iter().find(|c| c.3) {
                             // KNOWN cause, exactly: the key held a NON-STRING value (list, hash, set,
@@ -1100,6 +1110,11 @@ impl World {
                 return;
             }
         }
+        // … and so is the unflagged protocol error: a body that contains one runs its EXEC alone
+        if self.body.iter().any(|(_, r)| matches!(r, Rv::Err(t) if err_class(t, false) == "-protocol")) {
+            self.input(out, Inp::Exec(vec![])).await;
+            return;
+        }
         out.count("exec:concurrent");
         let foreign: Vec<Cmd> = sched.iter().flatten().cloned().collect();
         // EXEC's store accesses: one GET per watched snapshot, then the queued commands; PING is
@@ -1150,7 +1165,7 @@ impl World {
         self.nontrivial = true;
         // serial outcomes: an atomic EXEC after foreign[..j], before foreign[j..]
         let queued: Vec<Inp> = body.iter().filter(|(_, r)| *r == Rv::Simple("QUEUED".into())).map(|(i, _)| i.clone()).collect();
-        let refused = body.iter().any(|(_, r)| r.is_err() && !matches!(err_class(match r { Rv::Err(t) => t, _ => "" }, false).as_str(), "-nested-multi" | "-watch-in-multi" | "-protocol"));
+        let refused = body.iter().any(|(_, r)| r.is_err() && !matches!(err_class(match r { Rv::Err(t) => t, _ => "" }, false).as_str(), "-nested-multi" | "-watch-in-multi"));
         let observed = (show(&r, false), show_dump(&after));
         let mut allowed = Vec::new();
         for j in 0..=foreign.len() {
@@ -2550,6 +2565,7 @@ const AUDIT: &str = r####"{
 pub fn run(a: &Args) {
     let mut out = Out::new(&a.out);
     let mut rng = Rng::new(a.seed);
+    out.op(format!("G proto-flags {}", CODE_PROTO_ERROR_FLAGS as u8), "ok".into());
     let rt = tokio::runtime::Builder::new_current_thread().enable_all().build().unwrap();
     rt.block_on(async {
         for (shards, steps) in corpus() {
